@@ -1,6 +1,6 @@
 (** Property C14 — the theorems the check counts as obligations.  Nothing but
     statements closed by [exact] and [Print Assumptions]. *)
-From HS Require Import Base.Prelude C14.Model C14.LsmProofs C14.ConcProofs C14.KvTxnModel C14.KvTxnProofs C14.BtModel C14.BtProofs.
+From HS Require Import Base.Prelude C14.Model C14.LsmProofs C14.SeqProofs C14.ConcProofs C14.KvTxnModel C14.KvTxnProofs C14.BtModel C14.BtProofs.
 Local Open Scope Z_scope.
 
 (** LSM tree, sequential operations: after ANY sequence of put/delete (any
@@ -29,6 +29,18 @@ Theorem c14_lsm_compaction_preserves_lookups : forall s ls k,
   same_or_dropped (lsget k ls) (lsget k (compact_levels s ls)).
 Proof. exact compact_lookup. Qed.
 Print Assumptions c14_lsm_compaction_preserves_lookups.
+
+(** Generator API (step machine, one state per yield): operations that run
+    alone — segments not interleaved with another operation's — return exactly
+    the reference map's values.  PARTIAL counterpart of the refuted overlap
+    clause below (scan is not covered by this theorem). *)
+Theorem c14_lsm_alone_partial : forall bl, (forall ks k, In k ks -> bl ks k = true) ->
+  forall c fuel ops st' outs, (nlev c >= 1)%nat -> Forall no_scan ops ->
+  seq_exec fuel c bl (c_init c) ops = Some (st', outs) ->
+  forall i k, nth_error ops i = Some (Get k) ->
+  nth_error outs i = Some (OGet (spec_of (firstn i ops) k)).
+Proof. exact lsm_alone_partial. Qed.
+Print Assumptions c14_lsm_alone_partial.
 
 (** Overlapping operations (generator API as a step machine, any schedule):
     the full overlap clause is REFUTED on the faithful model — known finding
